@@ -78,6 +78,8 @@ type Profile struct {
 	ScalarArgs     bool    // fields may take an argument of the custom scalar type (meta: Stamp)
 	ValueWithID    float64 // probability that a value (non-Node) type carries an `id: ID!` field
 	SpreadEnum     bool    // services declare different subsets of an enum's values (merge-only universes)
+	Underscore     float64 // probability of names starting with a single underscore: root fields `_health`, `_meta`, a plain type `_Meta`
+	PluralNodes    float64 // probability of Relay's plural entry point nodes(ids: [ID!]!): [Node]! owned by one service
 	AbstractRoots  bool    // interfaces and unions have at least two members where possible, and each gets a root field returning a list of it
 	CommandOnly    float64 // probability of an extra service that has mutations and entity fields but no Query field besides node
 	IfaceImplNode  float64 // probability that an interface over entities is declared `implements Node` (merge-only universes)
@@ -415,6 +417,10 @@ func NewUniverse(r *rand.Rand, p Profile) *Universe {
 		}})
 		splitRoots = []*Field{{Name: "dimsA", Type: "Dims", Owner: a}, {Name: "dimsB", Type: "Dims", Owner: b}}
 	}
+	if p.Underscore > 0 && r.Float64() < p.Underscore {
+		add(&TypeDef{Name: "_Meta", Kind: KValue, Fields: []*Field{{Name: "_rev", Type: "Int", Owner: -1}, {Name: "note", Type: "String", Owner: -1}}})
+		splitRoots = append(splitRoots, &Field{Name: "_health", Type: "String", Owner: r.Intn(u.K)}, &Field{Name: "_meta", Type: "_Meta", Owner: r.Intn(u.K)})
+	}
 	if p.EmptyAbstract > 0 && r.Float64() < p.EmptyAbstract {
 		add(&TypeDef{Name: "Lonely", Kind: KInterface, Fields: []*Field{{Name: "x", Type: "Int", Owner: -1}}})
 		splitRoots = append(splitRoots, &Field{Name: "lonely", Type: "Lonely", Owner: r.Intn(u.K)}, &Field{Name: "lonelies", Type: "[Lonely!]", Owner: r.Intn(u.K)})
@@ -563,6 +569,9 @@ func NewUniverse(r *rand.Rand, p Profile) *Universe {
 			}
 			u.EnumSvc[t.Name] = per
 		}
+	}
+	if p.PluralNodes > 0 && len(ents) > 0 && r.Float64() < p.PluralNodes {
+		u.Query = append(u.Query, &Field{Name: "nodes", Type: "[Node]!", Args: []Arg{{Name: "ids", Type: "[ID!]!"}}, Owner: r.Intn(u.K)})
 	}
 	if p.NodeLookalike > 0 && len(ents) > 0 && r.Float64() < p.NodeLookalike {
 		u.Query = append(u.Query, &Field{Name: "lookup", Type: "Node", Args: []Arg{{Name: "id", Type: "ID!"}}, Owner: r.Intn(u.K)})
